@@ -145,8 +145,7 @@ def c19_shape(ctx, segs):
         k, v = out
 
         def witness():
-            assert e.solver.check() == z3.sat
-            m = e.solver.model()
+            m = e.witness_model()
             return bytes(m.eval(x, model_completion=True).as_long() for x in bs)
         if k != "return":
             ctx.fail("capability text validation panics", "validate_caps_text", text=witness().hex(), kind="panic")
